@@ -12,8 +12,16 @@ def e1(n, **kw):
     return {"engine": "E1", "params": p, "cases": n}
 
 
+E2_UNITS = []
+for _kind, _caps in (("rprs", (1, 2)), ("rrs", (1, 2)), ("filter", (1, 2)), ("bufferstore_fifo", (1, 2)),
+                     ("bufferstore_lifo", (2,)), ("fleet", (1, 2))):
+    for _cap in _caps:
+        for _np in (1, 2):
+            E2_UNITS.append((_kind, _cap, _np))
+
+
 def e2(depth, nshards, **kw):
-    from .workloads.e2 import UNITS
+    UNITS = E2_UNITS
     p = {"depth": depth, "nshards": nshards}
     p.update(kw)
     return {"engine": "E2", "params": p, "cases": len(UNITS) * nshards, "shards": min(64, len(UNITS) * nshards)}
@@ -22,6 +30,14 @@ def e2(depth, nshards, **kw):
 def e5(n):
     return {"engine": "E5", "params": {}, "cases": n}
 
+
+def e3(n, **kw):
+    p = {"profile": "core"}
+    p.update(kw)
+    return {"engine": "E3", "params": p, "cases": n}
+
+
+BUF_KINDS = ["buffer_fifo", "buffer_lifo", "fleet"]
 
 PLAN = {
     "C01": {"quick": [e2(6, 2), e1(2400, profiles=["full_store", "mixed", "burst", "prio_storm"])],
@@ -35,6 +51,16 @@ PLAN = {
             "thorough": [e2(8, 8), e1(48000, profiles=["hoarder", "mixed"])]},
     "C07": {"quick": [e2(5, 2, illformed=True), e1(1600, illformed=0.08)],
             "thorough": [e2(7, 8, illformed=True), e1(30000, illformed=0.08)]},
+    "C03": {"quick": [e3(1600)], "thorough": [e3(16000)]},
+    "C08": {"quick": [e3(1600)], "thorough": [e3(16000)]},
+    "C09": {"quick": [e3(1600)], "thorough": [e3(16000)]},
+    "C10": {"quick": [e3(1600)], "thorough": [e3(16000)]},
+    "C11": {"quick": [e1(2400, kinds=BUF_KINDS, probe=0.12), e3(800)],
+            "thorough": [e1(40000, kinds=BUF_KINDS, probe=0.12), e3(8000)]},
+    "C15": {"quick": [e3(1600)], "thorough": [e3(16000)]},
+    "C16": {"quick": [e3(1600, templates=["pack", "packunpack"])], "thorough": [e3(16000, templates=["pack", "packunpack"])]},
+    "C17": {"quick": [e3(1600)], "thorough": [e3(16000)]},
+    "C18": {"quick": [e3(1600), e1(1600)], "thorough": [e3(16000), e1(16000)]},
     "C14": {"quick": [e5(1600), e1(800, kinds=["fleet"])], "thorough": [e5(24000), e1(8000, kinds=["fleet"])]},
 }
 
@@ -47,6 +73,17 @@ RULES = {
            "(put, get, cancel of put, cancel of get, timer); distinct by operation-log hash",
     "C05": "E1 priority-storm histories; non-trivial = >=2 grants happened after waiting (so an order among waiting requests was decided); distinct by operation-log hash",
     "C06": "E1 hoarder histories; non-trivial = >=1 cancel of a granted retrieval and >=1 binding decided among >=2 candidate items; distinct by operation-log hash",
+    "C03": "E3: random factories (templates line/fanin/diamond/multisink/pack/packunpack, every edge type, shuffled construction and connection order, "
+           "variants plain/congested/starved/finite); non-trivial = >=1 discard or >=1 blocked push, and >=20 items received; distinct = sha256 of the model spec",
+    "C08": "E3 random factories; non-trivial = a machine held >=2 units at once and >=1 unit left later than its first offer (blocked); distinct by spec hash",
+    "C09": "E3 random factories; non-trivial = >=1 discard (non-blocking) or >=1 blocked push (blocking) observed; distinct by spec hash",
+    "C10": "E3 random factories; non-trivial = >=1 blocked push and >=10 items received (so pulls and pushes were decided under congestion); distinct by spec hash",
+    "C11": "E1 histories on Buffer/Fleet with 12% can_put/can_get probes (probe = query, then a reservation issued in the same state) + E3 factories (every can_put of a non-blocking node, every buffer delay draw); "
+           "non-trivial = probe issued while >=1 granted-unused reservation existed on the probed side (E1) / >=5 node can_put calls or >=10 delay draws checked (E3)",
+    "C15": "E3 random factories; non-trivial = a node with >=2 edges on the policy's side handled >=6 units while >=1 push was blocked or >=1 item dropped; distinct by spec hash",
+    "C16": "E3 pack / pack-unpack factories (recipes [1,1] [1,2] [1,3,1] [1,1,2]); non-trivial = >=3 pallets checked at the combiner's out-edge; distinct by spec hash",
+    "C17": "E3 random factories finalised at T (round, non-round, inside set-up, before the first item); non-trivial = a node spent time in >=3 distinct states; distinct by spec hash",
+    "C18": "E3 random factories + E1 store histories; non-trivial = >=20 items received and an edge whose occupancy changed >=10 times (E3) / >=6 occupancy changes (E1)",
     "C14": "E5: scripted loading/consumption on one Fleet (capacity 1-5, delay .5-3, transit 0-1.5, gaps aligned with trip boundaries) + E1 fleet histories; "
            "non-trivial = >=3 batches, >=1 capacity departure, >=1 timer departure and >=1 load while a trip was under way; distinct by operation-log hash",
     "C07": "E1 histories with 8% ill-formed calls of 10 classes; non-trivial = an ill-formed call was issued while the store held >=1 item and >=1 other reservation was outstanding; distinct by operation-log hash",
@@ -58,6 +95,25 @@ FLOORS = {
     "C04": {"quick": {"cases": 1000, "distinct_nontrivial": 300, "grants_after_wait": 3000}},
     "C05": {"quick": {"cases": 1000, "distinct_nontrivial": 300, "c05_grants_checked": 10000}},
     "C06": {"quick": {"cases": 1000, "distinct_nontrivial": 100, "c06_bindings_checked": 5000}},
+    "C03": {"quick": [e3(1600)], "thorough": [e3(16000)]},
+    "C08": {"quick": [e3(1600)], "thorough": [e3(16000)]},
+    "C09": {"quick": [e3(1600)], "thorough": [e3(16000)]},
+    "C10": {"quick": [e3(1600)], "thorough": [e3(16000)]},
+    "C11": {"quick": [e1(2400, kinds=BUF_KINDS, probe=0.12), e3(800)],
+            "thorough": [e1(40000, kinds=BUF_KINDS, probe=0.12), e3(8000)]},
+    "C15": {"quick": [e3(1600)], "thorough": [e3(16000)]},
+    "C16": {"quick": [e3(1600, templates=["pack", "packunpack"])], "thorough": [e3(16000, templates=["pack", "packunpack"])]},
+    "C17": {"quick": [e3(1600)], "thorough": [e3(16000)]},
+    "C18": {"quick": [e3(1600), e1(1600)], "thorough": [e3(16000), e1(16000)]},
+    "C03": {"quick": {"cases": 800, "distinct_nontrivial": 100, "c03_inside_checks": 50000, "factory_puts": 30000}},
+    "C08": {"quick": {"cases": 800, "distinct_nontrivial": 50, "c08_offers_checked": 10000}},
+    "C09": {"quick": {"cases": 800, "distinct_nontrivial": 200, "discards": 3000}},
+    "C10": {"quick": {"cases": 800, "distinct_nontrivial": 50, "c10_in_checks": 100000, "c10_out_checks": 5000}},
+    "C11": {"quick": {"cases": 1500, "distinct_nontrivial": 200, "c11_node_can_put_checked": 3000, "c11_delay_draws_checked": 5000}},
+    "C15": {"quick": {"cases": 800, "distinct_nontrivial": 100, "c15_nodes_out_checked": 1000, "c15_fa_out_checks": 3000}},
+    "C16": {"quick": {"cases": 800, "distinct_nontrivial": 200, "c16_pallets_checked": 3000, "unpacks": 1000}},
+    "C17": {"quick": {"cases": 800, "distinct_nontrivial": 300, "c17_nodes_checked": 3000, "c17_integrations": 2000}},
+    "C18": {"quick": {"cases": 1500, "distinct_nontrivial": 200, "c18_edge_avg_checks": 3000, "c18_received_items": 10000}},
     "C14": {"quick": {"cases": 1000, "distinct_nontrivial": 200, "c14_batches": 5000, "c14_capacity_departures": 1000,
                       "c14_timer_departures": 1000}},
     "C07": {"quick": {"cases": 800, "distinct_nontrivial": 200, "c07_illformed_calls": 2000}},
